@@ -6,6 +6,7 @@ import (
 	"os"
 	"sort"
 	"strings"
+	"time"
 )
 
 // Scenario: a closed concurrent driver. Build returns a fresh world, the thread bodies and a
@@ -108,7 +109,9 @@ func schedExplore(c schedCase, res *WRes) {
 		panic("unknown scenario " + c.Scenario)
 	}
 	outcomes := map[string]int{}
-	e := &Explorer{Bound: c.Bound, MaxExecs: c.MaxExecs}
+	// a shard that is still exploring after 5 minutes stops and reports a cap (the pool's watchdog, which is meant
+	// for workers that block for ever, fires at 10)
+	e := &Explorer{Bound: c.Bound, MaxExecs: c.MaxExecs, MaxWall: 5 * time.Minute}
 	var lastV []Violation
 	e.run = func(prefix []int) *Exec {
 		x, vs := schedRunOnce(sc, c, prefix)
